@@ -548,20 +548,110 @@ func listCase(sc *Scenario) {
 		if i > 2 && !run.Rand.Chance(1, 3) {
 			continue
 		}
-		sid := run.NewID()
-		d := x.Dec
-		flt := "0"
-		if d.Filter {
-			flt = "1"
+		regPageCase(sc.Kind, sc.Items, reg.Cap, x)
+	}
+}
+
+// RegPage is the replay form of one registry-model case (one request to the fake registry).
+type RegPage struct {
+	Op    string           `json:"op"` // "regpage"
+	Kind  string           `json:"kind"`
+	Items []fakereg.Item   `json:"items"`
+	Cap   int              `json:"cap"`
+	Path  string           `json:"path"`
+	Query []fakereg.KV     `json:"query"`
+	Dec   fakereg.Decision `json:"dec"`
+}
+
+// regPageCase compares one answer of the fake registry with the registry model (S line) and
+// judges it against the conditions of a legal registry, independently of the model.
+func regPageCase(kind string, items []fakereg.Item, cap int, x *fakereg.Exchange) {
+	sid := run.NewID()
+	d := x.Dec
+	flt := "0"
+	if d.Filter {
+		flt = "1"
+	}
+	in := fmt.Sprintf("S %s %s %d %s %s %d %s %s %s %s", kind, itemsTok(items), cap, common.Hex(x.Path), kvsTok(valuesKVs(x.Query)),
+		d.M, kvsTok(d.Extra), flt, common.Hex(d.FHdr), common.Hex(d.FAnn))
+	more, lq := 0, "_"
+	if x.More {
+		more, lq = 1, obsQuery(canonKVs(x.TQuery))
+	}
+	run.Case(sid, in, fmt.Sprintf("%s %d %s", itemsTok(x.Page), more, lq))
+	run.Count("registry_page")
+
+	// legality of the answer (ground truth: the item list and the request)
+	rep := RegPage{Op: "regpage", Kind: kind, Items: items, Cap: cap, Path: x.Path, Query: valuesKVs(x.Query), Dec: fakereg.Decision{M: d.M, Extra: d.Extra, Filter: d.Filter, FHdr: d.FHdr, FAnn: d.FAnn}}
+	bad := func(msg string) {
+		run.OracleFail(sid, "fake-registry-illegal", fmt.Sprintf("fake registry, request %s?%s: %s", x.Path, x.Query.Encode(), msg), rep)
+	}
+	rest := fakereg.After(items, x.Query.Get("last"))
+	lim := cap
+	if n, err := strconv.Atoi(x.Query.Get("n")); err == nil && n > 0 && n < lim {
+		lim = n
+	}
+	u := x.Unfilt
+	switch {
+	case len(u) > len(rest) || !sameItems(u, rest[:len(u)]):
+		bad(fmt.Sprintf("page %s is not a prefix of the remaining items %s", showNames(u), showNames(rest)))
+	case len(u) > lim:
+		bad(fmt.Sprintf("page of %d items exceeds min(cap, n) = %d", len(u), lim))
+	case len(u) == 0 && len(rest) > 0:
+		bad("empty page although items remain")
+	case x.More != (len(u) < len(rest)):
+		bad(fmt.Sprintf("link present = %v, items remaining = %d", x.More, len(rest)-len(u)))
+	}
+	if x.More {
+		last := ""
+		for _, kv := range x.TQuery {
+			if kv.K == "last" && last == "" {
+				last = kv.V
+			}
 		}
-		in := fmt.Sprintf("S %s %s %d %s %s %d %s %s %s %s", sc.Kind, itemsTok(sc.Items), reg.Cap, common.Hex(x.Path), kvsTok(valuesKVs(x.Query)),
-			d.M, kvsTok(d.Extra), flt, common.Hex(d.FHdr), common.Hex(d.FAnn))
-		more, lq := 0, "_"
-		if x.More {
-			more, lq = 1, obsQuery(canonKVs(x.TQuery))
+		if len(u) == 0 || last != u[len(u)-1].Name {
+			bad(fmt.Sprintf("link cursor %q is not the last item of the page %s", last, showNames(u)))
 		}
-		run.Case(sid, in, fmt.Sprintf("%s %d %s", itemsTok(x.Page), more, lq))
-		run.Count("registry_page")
+	}
+	at := x.Query.Get("artifactType")
+	for _, it := range x.Page {
+		if kind == "R" && at != "" && (d.Filter || fakereg.FilterApplied(d.FHdr, "artifactType") || fakereg.FilterApplied(d.FAnn, "artifactType")) && it.ArtifactType != at {
+			bad("filtering announced or chosen, page holds " + showNames(x.Page))
+		}
+	}
+}
+
+func regPageReplay(rp *RegPage) {
+	reg := fakereg.New(host)
+	reg.Cap = rp.Cap
+	if reg.Cap < 1 {
+		reg.Cap = 1
+	}
+	reg.Decide = func(*fakereg.Exchange) fakereg.Decision { return rp.Dec }
+	switch rp.Kind {
+	case "K":
+		reg.Repos = rp.Items
+	case "T":
+		reg.Tags[strings.TrimSuffix(strings.TrimPrefix(rp.Path, "/v2/"), "/tags/list")] = rp.Items
+	default:
+		i := strings.LastIndex(rp.Path, "/referrers/")
+		if i < 0 {
+			return
+		}
+		reg.Referrers[rp.Path[len("/v2/"):i]+"@"+rp.Path[i+len("/referrers/"):]] = rp.Items
+	}
+	q := url.Values{}
+	for _, kv := range rp.Query {
+		q.Add(kv.K, kv.V)
+	}
+	u := url.URL{Scheme: "http", Host: host, Path: rp.Path, RawQuery: q.Encode()}
+	resp, err := reg.Client().Get(u.String())
+	if err != nil || len(reg.Log) != 1 {
+		panic(fmt.Sprintf("regpage replay: %v", err))
+	}
+	resp.Body.Close()
+	if reg.Log[0].Status == 200 {
+		regPageCase(rp.Kind, rp.Items, reg.Cap, reg.Log[0])
 	}
 }
 
@@ -1429,6 +1519,23 @@ func replay(cases []map[string]string) {
 			l, _ := strconv.ParseInt(c["limit"], 10, 64)
 			s, _ := strconv.ParseInt(c["size"], 10, 64)
 			sizeCase(l, s)
+		case "regpage":
+			var rp RegPage
+			raw := map[string]json.RawMessage{}
+			for k, v := range c {
+				switch k {
+				case "op", "kind", "path":
+					b, _ := json.Marshal(v)
+					raw[k] = b
+				default:
+					raw[k] = json.RawMessage(v)
+				}
+			}
+			js, _ := json.Marshal(raw)
+			if err := json.Unmarshal(js, &rp); err != nil {
+				panic(fmt.Sprintf("replay: %v in %s", err, js))
+			}
+			regPageReplay(&rp)
 		case "wrap":
 			var sc Scenario
 			raw := map[string]json.RawMessage{}
